@@ -32,16 +32,27 @@ def parseHist (s : String) : Option (List Edit) :=
 
 def parseTerms (s : String) : Option (List Nat) := (s.splitOn ",").mapM (fun t => t.toNat?)
 
-def parseJustify (ws : List String) : Option (Option (Nat × List Entry)) :=
+def small (n : Nat) : Bool := n < 1073741824
+
+/-- `<view>` or `<view>@<cert>` followed by the entries; the default certified block is the predecessor `h - 1` -/
+def parseJustify (h : Nat) (ws : List String) : Option (Option Justify) :=
   match ws with
   | ["noqc"] => some none
   | v :: es =>
-    match v.toNat?, es.mapM parseEntry with
-    | some v, some es => some (some (v, es))
-    | _, _ => none
+    let (view?, cert?) : Option Nat × Option Nat :=
+      match v.splitOn "@" with
+      | [a] => (a.toNat?, some (h - 1))
+      | [a, b] => (a.toNat?, b.toNat?)
+      | _ => (none, none)
+    match view?, cert?, es.mapM parseEntry with
+    | some view, some cert, some es => some (some ⟨cert, view, es⟩)
+    | _, _, _ => none
   | [] => none
 
-def small (n : Nat) : Bool := n < 1073741824
+def badJustify (h : Nat) (j : Option Justify) : Bool :=
+  match j with
+  | some j => !small j.view || !small j.cert || j.cert > h - 1 || j.cert + 3 < h
+  | none => false
 
 def verdict (b : Bool) : String := if b then "accept" else "reject"
 
@@ -57,27 +68,27 @@ def step (_ : Unit) (line : String) : Unit × String :=
   match words line with
   | "xp" :: start :: init :: hist :: tip :: h :: ownBits :: preBits :: pos :: rest =>
     match start.toNat?, parseSet init, parseHist hist, tip.toNat?, h.toNat?, ownBits.toNat?, preBits.toNat?, pos.toNat?,
-        parseJustify rest with
+        parseJustify (h.toNat?.getD 0) rest with
     | some start, some init, some hist, some tip, some h, some ownBits, some preBits, some pos, some j =>
       if !(small start && small tip && small h && small pos) || start < 1 || h < 1 || h > tip + 1 || h + 2 < tip || tip + 1 < start
-          || ownBits ≥ 1048576 || preBits ≥ 1048576 || (match j with | some (v, _) => !small v | none => false) then ((), "bad-op")
+          || ownBits ≥ 1048576 || preBits ≥ 1048576 || badJustify h j then ((), "bad-op")
       else
         let preBits := if h - 1 ≥ start then preBits else 0
         ((), verdict (xpoaCheckMinerMatch ⟨start, tip, init, hist⟩ preBits ⟨h, ownBits, pos, j⟩))
     | _, _, _, _, _, _, _, _, _ => ((), "bad-op")
   | "td" :: start :: init :: hist :: terms :: h :: ownBits :: preBits :: term :: pos :: rest =>
     match start.toNat?, parseSet init, parseHist hist, parseTerms terms, h.toNat?, ownBits.toNat?, preBits.toNat?,
-        term.toNat?, pos.toNat?, parseJustify rest with
+        term.toNat?, pos.toNat?, parseJustify (h.toNat?.getD 0) rest with
     | some start, some init, some hist, some terms, some h, some ownBits, some preBits, some term, some pos, some j =>
       let tip := terms.length - 1
       if terms.isEmpty || !(small start && small h && small pos && small term) || start < 1 || h < 1 || h > tip + 1 || h + 2 < tip
-          || tip + 1 < start || ownBits ≥ 1048576 || preBits ≥ 1048576 || (match j with | some (v, _) => !small v | none => false)
+          || tip + 1 < start || ownBits ≥ 1048576 || preBits ≥ 1048576 || badJustify h j
           || hist.any (fun e => e.set.length ≠ init.length) || !tdWellFormed start init.length terms
           || pos ≥ init.length || term < 1 || terms.any (fun t => !small t) then ((), "bad-op")
       else
         let preBits := if h - 1 ≥ start then preBits else 0
         let c : TdChain := ⟨start, init, hist, terms⟩
-        ((), verdict (tdCheckMinerMatch c (h - 1) (terms.getD (h - 1) 0) preBits term ⟨h, ownBits, pos, j⟩))
+        ((), verdict (tdCheckMinerMatch c (terms.getD (h - 1) 0) preBits term ⟨h, ownBits, pos, j⟩))
     | _, _, _, _, _, _, _, _, _, _ => ((), "bad-op")
   | _ => ((), "bad-op")
 
